@@ -521,6 +521,22 @@ def check_escapes(ctx, modes, cases, batch=400):
             lines.append(f's{i} = {{ "{esc}" }}')
             calls.append((f"s{i}", ch))
             wants.append((esc, ch, "string"))
+            # the same escape in the other literal positions: case-insensitive literal, PUSH_LITERAL argument,
+            # and after an escaped backslash (where it is no escape at all: "\\\\n" is a backslash and an n)
+            lines.append(f'c{i} = {{ ^"{esc}" }}')
+            calls.append((f"c{i}", ch))
+            wants.append((esc, ch, "ci-string"))
+            lines.append(f'p{i} = {{ PUSH_LITERAL("{esc}") ~ PEEK }}')
+            calls.append((f"p{i}", ch))
+            wants.append((esc, ch, "push-literal"))
+            if esc not in ('\\"', "\\\\"):
+                raw = "\\" + esc[1:]
+                lines.append(f'd{i} = {{ "\\{esc}" }}')
+                calls.append((f"d{i}", raw))
+                wants.append((esc, ch, "string-after-escaped-backslash"))
+                lines.append(f'e{i} = {{ ^"\\{esc}" }}')
+                calls.append((f"e{i}", raw))
+                wants.append((esc, ch, "ci-string-after-escaped-backslash"))
             if esc != '\\"':
                 lines.append(f"a{i} = {{ '{esc}'..'\\u{{10FFFF}}' }}")
                 lines.append(f"b{i} = {{ '\\u{{00}}'..'{esc}' }}")
